@@ -34,6 +34,6 @@ python3 - "$D" "$ID" "$SUITE_OK" "$WITH" "$WITHOUT" "$(echo "$OUT" | head -1)" "
 import json,sys,os
 d,pid,suite,w,wo,res,demos=sys.argv[1:8]
 notes=open(d+'/NOTES.md').read() if os.path.exists(d+'/NOTES.md') else ''
-json.dump({"breaks":pid,"origin":"independent sub-agent, round 2 (given the property text, a scratch worktree and the list of ideas already used)","demo_files":demos.split(),"confirmed":{"suite_green_with_change":suite,"demo_exit_with_change":int(w),"demo_exit_without_change":int(wo)},"ran":"tools/confirm_seed2.sh; tools/try_patch.sh "+d+"/patch.diff "+pid,"check_result":res,"what_and_needs":notes[:1500]},open(d+'/meta.json','w'),indent=1)
+json.dump({"breaks":pid,"origin":"independent sub-agent, round ${ROUND:-2} (given the property text, a scratch worktree and the list of ideas already used)","demo_files":demos.split(),"confirmed":{"suite_green_with_change":suite,"demo_exit_with_change":int(w),"demo_exit_without_change":int(wo)},"ran":"tools/confirm_seed2.sh; tools/try_patch.sh "+d+"/patch.diff "+pid,"check_result":res,"what_and_needs":notes[:1500]},open(d+'/meta.json','w'),indent=1)
 PY
 rm -f /tmp/demo-with-$$.txt /tmp/demo-without-$$.txt
